@@ -109,6 +109,30 @@ class C18(core.Prop):
             where = {c: (c if style[c] == 'default' else rng.choice([f'{c}_mod', f'parts.{c}_in', f'a.b.{c}'])) for c in ('source', 'pipeline')}
             out.append({'t': 'install', 'name': rng.choice(['foo', 'my-prj']), 'version': rng.choice(['1', '0.1.dev2']), 'package': f'{pkg}',
                         'where': where, 'style': style, 'marker': f'M{k}x{rng.randint(0, 99)}', 'zip': rng.random() < 0.5})
+        for k in range(max(4, n // 40)):
+            # two packages installed one after the other on the same target path: same or different name / version,
+            # another principal package and / or module map and content
+            def spec(tag, name, version):
+                pkg = rng.choice(['ra', 'rb.core', 'rc']) + f'{k}{tag}'
+                style = {c: rng.choice(['default', 'relative', 'absolute']) for c in ('source', 'pipeline')}
+                where = {c: (c if style[c] == 'default' else rng.choice([f'{c}_mod', f'parts.{c}_in'])) for c in ('source', 'pipeline')}
+                return {'name': name, 'version': version, 'package': pkg, 'where': where, 'style': style,
+                        'marker': f'R{k}{tag}', 'zip': rng.random() < 0.5}
+            name, version = rng.choice(['foo', 'my-prj']), rng.choice(['1', '0.1.dev2'])
+            first = spec('a', name, version)
+            fmt = first['zip']
+            r = rng.random()
+            if r < 0.6:
+                second = spec('b', name, version)                         # a re-published release
+            elif r < 0.8:
+                second = spec('b', name, rng.choice(['2', '1.1']))          # the next release
+            else:
+                second = dict(first)                                       # the very same package again
+            # same packaging format: replacing a directory by an archive (or back) on a path the interpreter has already
+            # imported from trips over CPython's sys.path_importer_cache in the SAME process - import-system state, not
+            # what was written (a fresh process loads it correctly)
+            second = {**second, 'zip': fmt}
+            out.append({'t': 'reinstall', 'first': first, 'second': second})
         return out
 
     def run_impl(self, cases):
@@ -119,7 +143,7 @@ class C18(core.Prop):
     def coq_case(self, case, obs):
         t = case['t']
         if 'error' in obs:
-            return None if t in ('manifest', 'install', 'nextgen', 'repackage') else '(C18.CGenKey 1%Z None None)'
+            return None if t in ('manifest', 'install', 'reinstall', 'nextgen', 'repackage') else '(C18.CGenKey 1%Z None None)'
         if t == 'tag':
             return (f"(C18.CTag {co(case['trts'], cz, 'Z')} {co(case['trord'], cz, 'Z')} {co(case['tuts'], cz, 'Z')} "
                     f"{co(case['tuscore'], cz, 'Z')} {cl([cz(s) for s in case['states']], 'Z')} {ctag(obs)})")
@@ -203,6 +227,11 @@ class C18(core.Prop):
         elif t == 'repackage':
             if obs['created'] != case['new_version'] or obs['reread'] != case['new_version'] or obs['source'] != f"T{case['marker']}[T{case['marker']}.x]":
                 return f"package re-created under version {case['new_version']} (the tree carried {case['old_version']}) reads back as {obs}"
+        elif t == 'reinstall':
+            for which in ('first', 'second'):
+                m = case[which]['marker']
+                if obs[which] != [f'T{m}[T{m}.x]', f'op{m}']:
+                    return f"installing {case['first']} and then {case['second']} on the same path: the {which} install yields components {obs[which]}"
         elif t == 'install':
             m = case['marker']
             if obs['source'] != f'T{m}[T{m}.x]' or obs['pipeline'] != f'op{m}' or not obs['manifest_equal']:
@@ -221,7 +250,7 @@ class C18(core.Prop):
             return any('.' in w for w in case['where'].values()) or case['zip']
         if t == 'nextgen':
             return bool(case['keys']) and case['keys'] != list(range(1, len(case['keys']) + 1))
-        if t == 'repackage':
+        if t in ('repackage', 'reinstall'):
             return True
         return False
 
